@@ -59,11 +59,25 @@ void harness_unicode_normalize(void) {
     struct in_norm in = GET_IN(in_norm);
     PRE(IN_IS_USTR(in));
     PRE(in.norm_len >= 0 && in.norm_len < MAXN - 1 && (in.srclen < 0 || (size_t)in.srclen <= in.len));
-    g_len = in.len; g_norm_len = in.norm_len; g_norm_fail = in.norm_fail;
+    g_len = in.len; g_norm_len = in.norm_len; g_norm_fail = in.norm_fail; g_pipe_on = 0;
     UChar *out = NULL; int32_t outlen = -7;
     int r = cif_unicode_normalize(in.str, in.srclen, UNORM_NFC, &out, &outlen, in.terminate);
     POST(r == CIF_OK || r == CIF_MEMORY_ERROR || r == CIF_ERROR, "C17 cif_unicode_normalize returns OK, MEMORY_ERROR or ERROR");
     if (r == CIF_OK) { POST(out != NULL && outlen == in.norm_len, "C09 normalised buffer and length handed out"); REACH("normalised"); free(out); }
     else { POST(out == NULL && outlen == -7, "C17 failed normalisation leaves the outputs untouched"); REACH("norm-failed"); }
     /* nothing may remain allocated here: --memory-leak-check */
+}
+
+/* ---- cif_normalize: NFD -> case fold -> NFC, buffers released on every path (C09 / C17) ------------------------------- */
+void harness_cif_normalize(void) {
+    struct in_norm in = GET_IN(in_norm);
+    PRE(IN_IS_USTR(in));
+    PRE(in.norm_len >= 0 && in.norm_len < MAXN - 1 && (in.srclen < 0 || (size_t)in.srclen <= in.len));
+    g_len = in.len; g_norm_len = in.norm_len; g_pipe_on = 1; g_pipe_n = 0; g_fold_calls = 0;
+    UChar *out = NULL;
+    int r = cif_normalize(in.str, in.srclen, in.terminate ? &out : NULL);
+    if (r == CIF_OK) {
+        POST(g_pipe_n == 2 && g_pipe_first_mode == (int)UNORM_NFD && g_fold_at == 1 && g_pipe_last_mode == (int)UNORM_NFC, "C09 normalisation pipeline is NFD, case fold, NFC in that order");
+        REACH("normalized"); if (in.terminate) free(out);
+    } else { POST(out == NULL, "C17 failed normalisation leaves the output untouched"); REACH("normalize-failed"); }
 }
